@@ -10,7 +10,7 @@ Close Scope Z_scope. Open Scope nat_scope.
 (* the configuration of the channel model as read off the source by tools/gen_facts.py; the shape facts say that
    the functions the model's atomic steps stand for still have the modelled structure *)
 Definition chan_cfg : ccfg := {| setcb_atomic := chan_setcb_atomic && chan_receiver_locked |}.
-Lemma C02_cfg_ok : cfg_ok chan_cfg /\ chan_receive_shape_ok = true /\ chan_local_receive_shape_ok = true /\ chan_local_close_order_ok = true /\ chan_handlers_ok = true /\ to_io_single_write = true /\ wshape_atomic popen_write_shape = true /\ wshape_atomic socket_write_shape = true /\ popen_streams_buffered = true /\ read_loops_exact = true /\ from_io_exact = true /\ send_dumps_before_write = true /\ ser_stateless_dispatch = true.
+Lemma C02_cfg_ok : cfg_ok chan_cfg /\ chan_receive_shape_ok = true /\ chan_local_receive_shape_ok = true /\ chan_local_close_order_ok = true /\ chan_handlers_ok = true /\ to_io_single_write = true /\ wshape_atomic popen_write_shape = true /\ wshape_atomic socket_write_shape = true /\ popen_streams_buffered = true /\ socket_io_blocking = true /\ read_loops_exact = true /\ from_io_exact = true /\ send_dumps_before_write = true /\ ser_stateless_dispatch = true.
 Proof. repeat split; reflexivity. Qed.
 Definition C02_C : cfg_ok chan_cfg := proj1 C02_cfg_ok.
 
